@@ -86,6 +86,8 @@ func ruleC01(w *World, r *Report) {
 
 	ruleC01Secondary(w, r)
 	ruleC01Shape(w, r)
+	ruleC01Reader(w, r)
+	ruleC01Labels(w, r)
 
 	// every justification line must have been needed (no stale suppressions)
 	for k := range justifications {
@@ -397,4 +399,230 @@ func ruleC01Shape(w *World, r *Report) {
 		r.check(g, "R01.3", w.FuncName(nc), "first datagram handled only on a successfully dialled connection", w.Pos(c.Pos()), "unreachable unless the dial error was nil", "after a failed dial the nil connection is used to handle the first datagram")
 	}
 	_ = fmt.Sprint
+}
+
+
+// ruleC01Reader: the association's reader goroutine ends only on a read timeout (after it told
+// Serve) or when the socket was closed. Any other return leaves the association without a receive
+// loop while it is still in pConns: the peer's later (valid) requests are never processed.
+func ruleC01Reader(w *World, r *Report) {
+	const P = "C01"
+	serve := w.Fn(P, "pfcpiface.(*PFCPConn).Serve")
+	var reader *ssa.Function
+	for _, a := range serve.AnonFuncs {
+		reader = a
+	}
+	if reader == nil {
+		r.bad("R01.6", w.FuncName(serve), "the association has a reader goroutine", w.Pos(serve.Pos()), "reader closure not found in Serve")
+		return
+	}
+	rn := w.FuncName(reader)
+	n := 0
+	for k, ret := range returnsOf(reader) {
+		n++
+		g := onlyVia(reader, ret, func(a, b *ssa.BasicBlock) bool {
+			v, truth, ok := boolEdge(a, b)
+			if !ok || !truth {
+				return false
+			}
+			s := symOf(v).String()
+			if strings.Contains(s, "Timeout(") {
+				return true
+			}
+			if c, isCall := v.(*ssa.Call); isCall && calleeName(c) == "errors.Is" {
+				if u, ok := c.Call.Args[1].(*ssa.UnOp); ok {
+					if g, ok := u.X.(*ssa.Global); ok && g.Name() == "ErrClosed" && g.Pkg != nil && g.Pkg.Pkg.Path() == "net" {
+						return true
+					}
+				}
+			}
+			return false
+		})
+		r.check(g, "R01.6", rn, fmt.Sprintf("return #%d: the reader ends only on a read timeout or a closed socket", k+1), w.Pos(ret.Pos()), "under netErr.Timeout() / errors.Is(err, net.ErrClosed)", "the reader goroutine can end for another reason (an empty datagram, a transient read error, a message it does not like): the association stays registered but nobody reads its socket any more")
+	}
+	r.floor("R01.6 reader exits", n, 2)
+	// every successfully read datagram is handed to the dispatcher
+	disp := w.Fn(P, "pfcpiface.(*PFCPConn).HandlePFCPMsg")
+	var read *ssa.Call
+	allInstrs(reader, func(i ssa.Instruction) {
+		if c, ok := i.(*ssa.Call); ok && c.Call.IsInvoke() && c.Call.Method.Name() == "Read" {
+			read = c
+		}
+	})
+	calls := callsTo(reader, disp)
+	if read == nil || len(calls) != 1 {
+		r.bad("R01.6", rn, "read, then dispatch", w.Pos(reader.Pos()), "the reader no longer reads the socket and calls HandlePFCPMsg once per datagram")
+		return
+	}
+	ev := errResult(read)
+	// from the err == nil edge of Read, the loop header is reachable only through the dispatch
+	okD := true
+	for _, b := range reader.Blocks {
+		for _, sc := range b.Succs {
+			if nilnessEdge(b, sc, func(x ssa.Value) bool { return x == ev }, true) {
+				hit := reach(reader, firstInstr(sc), func(i ssa.Instruction) bool { return i == ssa.Instruction(read) || isReturn(i) }, func(i ssa.Instruction) bool { return i == calls[0].(ssa.Instruction) }, nil)
+				if hit != nil && !blockHas(sc, calls[0].(ssa.Instruction)) {
+					okD = false
+				}
+			}
+		}
+	}
+	r.check(okD, "R01.6", rn, "every datagram that was read is dispatched", w.Pos(calls[0].Pos()), "Read ok → HandlePFCPMsg on every path", "a datagram that was read successfully can be skipped (or end the loop) before HandlePFCPMsg sees it")
+}
+
+// ruleC01Labels: Prometheus' WithLabelValues panics on a label value that is not valid UTF-8 (and on a
+// wrong number of values). Every value handed to it on the receive path is either free of peer data
+// (constants, go-pfcp's message type names) or went through strings.ToValidUTF8.
+func ruleC01Labels(w *World, r *Report) {
+	n := 0
+	for _, f := range w.Funcs {
+		fn := w.FuncName(f)
+		if strings.HasPrefix(fn, "test/") {
+			continue
+		}
+		f := f
+		allInstrs(f, func(i ssa.Instruction) {
+			c, ok := i.(*ssa.Call)
+			if !ok || !strings.HasSuffix(calleeName(c), "Vec).WithLabelValues") {
+				return
+			}
+			// variadic: the values are stored into a fresh array
+			var vals []ssa.Value
+			if len(c.Call.Args) >= 2 {
+				if sl, ok := c.Call.Args[len(c.Call.Args)-1].(*ssa.Slice); ok {
+					if al, ok := sl.X.(*ssa.Alloc); ok && al.Referrers() != nil {
+						for _, ref := range *al.Referrers() {
+							if ia, ok := ref.(*ssa.IndexAddr); ok && ia.Referrers() != nil {
+								for _, r2 := range *ia.Referrers() {
+									if st, ok := r2.(*ssa.Store); ok {
+										vals = append(vals, st.Val)
+									}
+								}
+							}
+						}
+					}
+				}
+			}
+			for k, v := range vals {
+				n++
+				okV, why := w.labelSafe(v, 0, map[ssa.Value]bool{})
+				r.check(okV, "R01.7", fn, fmt.Sprintf("label value #%d of %s #%d cannot make WithLabelValues panic", k+1, shortCallee(calleeName(c)), ordinalIn(f, c)), w.Pos(c.Pos()), why, "a label value derived from "+why+" reaches WithLabelValues unsanitised: a peer-chosen string that is not valid UTF-8 (Node ID in FQDN form) panics there and takes the agent down")
+			}
+		})
+	}
+	r.floor("R01.7 label values", n, 8)
+}
+
+// labelSafe: the string value cannot carry peer-chosen bytes, or was sanitised.
+func (w *World) labelSafe(v ssa.Value, depth int, seen map[ssa.Value]bool) (bool, string) {
+	if depth > 8 {
+		return false, "a value too deep to follow"
+	}
+	if seen[v] {
+		return true, "cycle"
+	}
+	seen[v] = true
+	switch x := v.(type) {
+	case *ssa.Const:
+		return true, "constant"
+	case *ssa.Call:
+		name := calleeName(x)
+		if name == "strings.ToValidUTF8" {
+			return true, "strings.ToValidUTF8"
+		}
+		if x.Call.IsInvoke() && x.Call.Method.Name() == "MessageTypeName" {
+			return true, "go-pfcp message type name"
+		}
+		if g := staticCallee(x); g != nil && w.isRepoFunc(g) && g.Blocks != nil {
+			for _, ret := range returnsOf(g) {
+				if okR, why := w.labelSafe(res(ret, 0), depth+1, seen); !okR {
+					return false, why
+				}
+			}
+			return true, "helper " + g.Name()
+		}
+		return false, name + "(…)"
+	case *ssa.Phi:
+		for _, e := range x.Edges {
+			if okE, why := w.labelSafe(e, depth+1, seen); !okE {
+				return false, why
+			}
+		}
+		return true, "all merged values"
+	case *ssa.Parameter:
+		f := x.Parent()
+		idx := -1
+		for i, p := range f.Params {
+			if p == x {
+				idx = i
+			}
+		}
+		in := w.CG().callersOf(f)
+		if len(in) == 0 || idx < 0 {
+			return false, "parameter " + x.Name() + " of " + w.FuncName(f)
+		}
+		for _, e := range in {
+			ci, ok := e.Site.(ssa.CallInstruction)
+			if !ok {
+				return false, "parameter " + x.Name()
+			}
+			args := ci.Common().Args
+			off := 0
+			if ci.Common().IsInvoke() {
+				off = -1
+			}
+			if idx+off < 0 || idx+off >= len(args) {
+				return false, "parameter " + x.Name()
+			}
+			if okA, why := w.labelSafe(args[idx+off], depth+1, seen); !okA {
+				return false, why
+			}
+		}
+		return true, "every caller's argument"
+	case *ssa.UnOp:
+		if x.Op != token.MUL {
+			return false, symOf(v).String()
+		}
+		if fa, ok := x.X.(*ssa.FieldAddr); ok && fieldVar(fa) != nil {
+			// every store into this field, anywhere in the repo
+			fld := fieldVar(fa)
+			okAll, why, n := true, "", 0
+			for _, g := range w.Funcs {
+				if strings.HasPrefix(w.FuncName(g), "test/") {
+					continue
+				}
+				allInstrs(g, func(i ssa.Instruction) {
+					st, ok := i.(*ssa.Store)
+					if !ok {
+						return
+					}
+					f2, ok := st.Addr.(*ssa.FieldAddr)
+					if !ok || fieldVar(f2) != fld {
+						return
+					}
+					n++
+					if okS, whyS := w.labelSafe(st.Val, depth+1, seen); !okS && okAll {
+						okAll, why = false, whyS
+					}
+				})
+			}
+			if n == 0 {
+				return false, "field " + fld.Name() + " (no writer found)"
+			}
+			if !okAll {
+				return false, "field " + fld.Name() + " ← " + why
+			}
+			return true, "every writer of " + fld.Name()
+		}
+		if cell := cellOf(x.X); cell != nil {
+			for _, st := range storesTo(cell) {
+				if okS, why := w.labelSafe(st.Val, depth+1, seen); !okS {
+					return false, why
+				}
+			}
+			return true, "local"
+		}
+		return false, symOf(v).String()
+	}
+	return false, symOf(v).String()
 }
